@@ -366,6 +366,10 @@ func (c *Conn) reader(ctx context.Context) (_ MessageType, _ io.Reader, err erro
 	}
 	defer c.readMu.unlock()
 
+	if c.readDiscarding {
+		return 0, nil, net.ErrClosed
+	}
+
 	if !c.msgReader.fin {
 		return 0, nil, errors.New("previous message not read to completion")
 	}
@@ -429,6 +433,10 @@ func (mr *msgReader) Read(p []byte) (n int, err error) {
 		return 0, fmt.Errorf("failed to read: %w", err)
 	}
 	defer mr.c.readMu.unlock()
+
+	if mr.c.readDiscarding {
+		return 0, fmt.Errorf("failed to read: %w", net.ErrClosed)
+	}
 
 	n, err = mr.limitReader.Read(p)
 	if mr.flate && mr.flateContextTakeover() && mr.dict != nil {
